@@ -61,3 +61,11 @@ def shard(mon, tier, rng, shard_no, nshards):
             if ph:
                 mon.sample({"variant": variant, "cone": case["cone"], "S_before": sorted(ph["pre"][0]), "S_after": sorted(ph["post"][0]),
                             "pess": sorted(tr.steps[0].get("pess") or []), "regions": {k: v[1:] for k, v in list(ph["regions"].items())[:3]}})
+
+
+def replay(mon, rec):
+    def chk(mon, tr):
+        for st in tr.steps:
+            if st["crash"] is None:
+                runchecks.check_discard(mon, tr, st)
+    runs.replay_runs(mon, rec, chk)
